@@ -9,7 +9,7 @@ import hashlib, json, os, shutil, subprocess, sys, tempfile, time
 VERIF = os.path.dirname(os.path.dirname(os.path.abspath(__file__)))
 REPO = os.environ.get("VERIF_REPO", "/repo")
 DRIVER = os.path.join(VERIF, "driver", "target", "release", "drv")
-CACHE = os.path.join(VERIF, ".cache", "facts")
+CACHE = os.environ.get("VERIF_FACTS_CACHE") or os.path.join(VERIF, ".cache", "facts")
 
 CONFIGS = {
     # name: (cargo feature args, overflow checks)
@@ -85,7 +85,7 @@ def export(config, repo=None, force=False, crate="rarena_allocator", package="ra
     # prune old tree hashes (keep 6 most recent)
     try:
         ds = sorted((os.path.getmtime(os.path.join(CACHE, d)), d) for d in os.listdir(CACHE))
-        for _, d in ds[:-6]:
+        for _, d in ds[:-12]:
             shutil.rmtree(os.path.join(CACHE, d), ignore_errors=True)
     except OSError:
         pass
